@@ -58,4 +58,16 @@ theorem T0x1206_roundtrip (fuel : Nat) (t q : model_T0x1206) (j : jt808_JTMessag
   simp only [model_T0x1206_Encode, model_T0x1206_Parse, model_T0x1206_Parse_j1]
   simp [make, makeCap, putU16At, putU32At, setIdx, Go.be16, sliceTo, sliceFrom, slice, idx, u16_pair, u16_cons2, u32_quad]
 
+theorem be32_length (v : UInt32) : (Go.be32 v).length = 4 := rfl
+theorem be32_lit (v : UInt32) : [(Go.be32 v)[0]?.getD default, (Go.be32 v)[1]?.getD default, (Go.be32 v)[2]?.getD default, (Go.be32 v)[3]?.getD default] = Go.be32 v := by
+  simp [Go.be32]
+theorem be32_take4 (v : UInt32) (r : Bytes) : (Go.be32 v ++ r).take 4 = Go.be32 v := by simp [Go.be32]
+
+theorem T0x0800_roundtrip (fuel : Nat) (t q : model_T0x0800) (j : jt808_JTMessage) :
+    ∃ body, model_T0x0800_Encode fuel t = X.ok body ∧
+      ∃ r, model_T0x0800_Parse fuel q { j with Body := body } = X.ok (r, none) ∧ r.MultimediaID = t.MultimediaID ∧ r.MultimediaType = t.MultimediaType ∧ r.MultimediaFormatEncode = t.MultimediaFormatEncode ∧ r.EventItemEncode = t.EventItemEncode ∧ r.ChannelID = t.ChannelID := by
+  simp only [model_T0x0800_Encode, model_T0x0800_Parse, model_T0x0800_Parse_j1]
+  simp [make, makeCap, putU16At, putU32At, setIdx, Go.be16, sliceTo, sliceFrom, slice, idx, u16_pair, u16_cons2, u32_quad, be32_length, be32_take4, be32_lit,
+    show ∀ (v : UInt32) (a b c d : Byte), Go.be32 v ++ [a, b, c, d] = [(Go.be32 v)[0]!, (Go.be32 v)[1]!, (Go.be32 v)[2]!, (Go.be32 v)[3]!, a, b, c, d] from fun v a b c d => by simp [Go.be32]]
+
 end JT.Gen.GoModel
